@@ -55,13 +55,26 @@ class GooseModel:
             A dictionary of node names and their corresponding :class:`.NodeState`.
         """
         position = {}
+        loaded = False
 
         for key in position_keys:
             try:
-                position[key] = model_state[key].value
+                node_key = key
+                value = model_state[node_key].value
             except KeyError:
                 node_key = self._model.vars[key].value_node.name
-                position[key] = model_state[node_key].value
+                value = model_state[node_key].value
+
+            if value is None:
+                # a transient node computes its value on the fly, it is not part
+                # of the model state
+                if not loaded:
+                    self._model.state = model_state
+                    loaded = True
+
+                value = self._model.nodes[node_key].value
+
+            position[key] = value
 
         return Position(position)
 
